@@ -47,13 +47,13 @@ PROPS['C04'] = {
 
 PROPS['C05'] = {
     'level': 'other',
-    'units': ['C05/fmindex', 'C04/occ', 'C04/less'],
+    'units': ['C05/fmindex', 'C04/less'],
     'kani': [],
     'oracle': 'C05',
-    'decided': ['Occ::get / less / bwt tables exact (units shared with C04: every Occ sampling rate)', 'FMIndexable::backward_search (the real default method) returns Complete/Partial/Absent exactly as defined by the LF recurrence l\' = less(a)+occ(l-1,a), r\' = less(a)+occ(r,a)-1 over the pattern read right to left; no arithmetic underflow given less(a) >= 1 for pattern symbols'],
+    'decided': ['Occ::new / Occ::get exact for every sampling rate (same regions as C04/occ, verified again inside this unit), less / bwt exact (unit C04/less)', 'FMIndex::{new, occ, less, bwt}: the concrete index implements the trait contracts with spec_occ = number of a in bwt[0..=r] and spec_less = number of smaller symbols, and the counting laws (bounds, monotone, 1-Lipschitz) are PROVED of it', 'FMIndexable::backward_search (the real default method) returns Complete/Partial/Absent exactly as defined by the LF recurrence l\' = less(a)+occ(l-1,a), r\' = less(a)+occ(r,a)-1 over the pattern read right to left; no arithmetic underflow given less(a) >= 1 for pattern symbols'],
     'undecided': ['link between the LF recurrence and suffix-array occurrences (Ferragina-Manzini theorem: assumed, mathematics not code)',
-                  'Interval::occ and sampled suffix array resolution (iterator adapter chain)', 'FMIndex::{occ,less,bwt} delegation through Borrow'],
-    'trusted': ['trait obligations bounds/mono on implementors (stated as proof fns of the trait; discharged for FMIndex only by C04 contracts informally)'],
+                  'Interval::occ and sampled suffix array resolution (iterator adapter chain)', 'owned / Arc-shared component instantiations (the proof instantiates the components at shared references)'],
+    'trusted': ['bytecount::count and Alphabet stubs (as in C04)', 'Borrow::borrow on a reference is the identity (rule RBW)'],
     'level_text': 'Verus proves the real backward_search loop against the textbook LF recurrence (result cases, matched length, no underflow) for every implementor satisfying the stated counting laws; the step from the recurrence to occurrence sets is the FM-index theorem and is assumed.',
     'level_note': 'Level other: proof of the search loop against the recurrence; occurrence semantics rests on the (assumed) LF-mapping theorem and on C04 for the tables.',
 }
